@@ -448,6 +448,31 @@ pub fn corpus(tier: Tier) -> Vec<Project> {
         p.set_file(None, "en", vec![("k1".into(), s(a)), ("k2".into(), Val::Int(-3)), ("k3".into(), Val::Float("1.5".into())), ("k4_one".into(), st("one")), ("k4_other".into(), st("other"))]);
         out.push(p);
     }
+    // ranges of every small shape: 1 / 2 / 3 branches x no type / u8 / f32 x list and map form x the fallback written
+    // implicitly or as `_` (a front-end may hand a sequence over with or without a length)
+    {
+        let mut e = vec![];
+        let mut k = 0;
+        for ty in [None, Some("u8"), Some("f32")] {
+            for n_branches in 1..=3usize {
+                for map_form in [false, true] {
+                    for underscore in [false, true] {
+                        let mut branches = vec![];
+                        for b in 0..n_branches - 1 {
+                            let spec = if ty == Some("f32") { CountSpec::Float(format!("{b}.5")) } else { CountSpec::UInt(b as u64) };
+                            branches.push(rb(s(vec![text(&format!("[r{k}.{b}]")), var("count")]), vec![spec], map_form));
+                        }
+                        branches.push(rb(st(&format!("[r{k}.fb]")), if underscore { vec![CountSpec::Str("_".into())] } else { vec![] }, map_form));
+                        e.push((format!("r{k}"), Val::Range(RangeDecl { ty: ty.map(String::from), branches })));
+                        k += 1;
+                    }
+                }
+            }
+        }
+        let mut p = Project::new(Config::simple("en", &["en"]));
+        p.set_file(None, "en", e);
+        out.push(p);
+    }
     // plural forms, surplus / missing keys (diagnostics must not depend on order)
     let mut p = Project::new(Config::simple("en", &["en", "fr"]));
     p.set_file(None, "en", vec![("a".into(), st("A")), ("b".into(), st("B")), ("p_one".into(), st("1")), ("p_other".into(), st("n")), ("p_few".into(), st("few"))]);
